@@ -4,13 +4,14 @@ import fcntl, json, os, random, re, subprocess, sys, time, hashlib
 ROOT = os.path.dirname(os.path.dirname(os.path.abspath(__file__)))
 COQ = os.path.join(ROOT, "coq")
 BUILD = os.path.join(ROOT, "build")
-REPO = "/repo"
+REPO = os.environ.get("VERIF_REPO", "/repo")      # a scratch copy for mutation sweeps; checks use /repo
+REPO_TAG = "" if REPO == "/repo" else "-" + hashlib.md5(REPO.encode()).hexdigest()[:8]
 GUARD = "aws_smt_strings_verif"
 NPROC = min(16, os.cpu_count() or 4)
 
 ENV = dict(os.environ)
 ENV.update({"CARGO_NET_OFFLINE": "true", "RUST_BACKTRACE": "0",
-            "CARGO_TARGET_DIR": os.path.join(BUILD, "target")})
+            "CARGO_TARGET_DIR": os.path.join(BUILD, "target" + REPO_TAG)})
 
 ALLOWED_AXIOMS = set()   # no axiom is used; see DESIGN.md section 3
 
@@ -101,9 +102,33 @@ def scan_forbidden(files):
 
 
 def proof_side(pid, thorough=False):
+    """all property files of pid: Properties/Cxx.v and the additional Properties/Cxx<letter>.v"""
+    import glob
+    files = sorted(os.path.basename(f) for f in glob.glob(os.path.join(COQ, "Properties", pid + "*.v"))
+                   if re.fullmatch(pid + r"[a-z]?\.v", os.path.basename(f)))
+    if not files:
+        files = [pid + ".v"]
+    # only files listed in _CoqProject count (a file still being written by hand is ignored)
+    listed = open(os.path.join(COQ, "_CoqProject")).read().split()
+    files = [f for f in files if "Properties/" + f in listed] or [pid + ".v"]
+    agg = None
+    for f in files:
+        r = proof_side_file(pid, f[:-2], thorough)
+        if agg is None:
+            agg = r
+        else:
+            for k in ("obligations", "discharged", "wall_s"):
+                agg[k] = agg.get(k, 0) + r.get(k, 0)
+            for k in ("failures", "theorems", "axioms"):
+                agg[k] = agg[k] + r[k]
+            agg["files"] = sorted(set(agg["files"] + r["files"]))
+    return agg
+
+
+def proof_side_file(pid, stem, thorough=False):
     """returns dict(obligations, discharged, failures[list of str], theorems[list], files[list], wall_s)"""
     t0 = time.time()
-    vfile = "Properties/%s.v" % pid
+    vfile = "Properties/%s.v" % stem
     res = {"obligations": 0, "discharged": 0, "failures": [], "theorems": [], "files": [], "axioms": []}
     if not os.path.exists(os.path.join(COQ, vfile)):
         res["failures"].append("no property file " + vfile)
@@ -130,7 +155,7 @@ def proof_side(pid, thorough=False):
     # re-check the property file itself to read the Print Assumptions output
     os.makedirs(os.path.join(BUILD, "proof"), exist_ok=True)
     rc, out = sh(["coqc", "-R", COQ, "SV", os.path.join(COQ, vfile), "-o",
-                  os.path.join(BUILD, "proof", pid + ".vo")], cwd=COQ, timeout=1800)
+                  os.path.join(BUILD, "proof", stem + ".vo")], cwd=COQ, timeout=1800)
     if rc != 0:
         res["failures"].append("coqc of %s failed:\n%s" % (vfile, out[-3000:]))
         res["wall_s"] = time.time() - t0
@@ -165,7 +190,7 @@ def proof_side(pid, thorough=False):
             ok += 1
     res["discharged"] = ok if not res["failures"] else min(ok, max(0, len(thms) - 1))
     if thorough and not res["failures"]:
-        rc, out = sh(["coqchk", "-silent", "-o", "-R", COQ, "SV", "SV.Properties." + pid], cwd=COQ, timeout=3000)
+        rc, out = sh(["coqchk", "-silent", "-o", "-R", COQ, "SV", "SV.Properties." + stem], cwd=COQ, timeout=3000)
         res["coqchk"] = out[-1500:]
         if rc != 0:
             res["failures"].append("coqchk failed: " + out[-2000:])
@@ -200,9 +225,21 @@ def build_harness(profile="debug"):
     env = dict(ENV)
     env["RUSTFLAGS"] = "--cfg " + GUARD
     cmd = ["cargo", "build", "--offline", "--quiet"] + (["--release"] if profile == "release" else [])
-    with Lock("cargo"):
-        rc, out = sh(cmd, cwd=os.path.join(ROOT, "harness"), env=env, timeout=1800)
-    exe = os.path.join(BUILD, "target", profile, "smtverif-harness")
+    hdir = os.path.join(ROOT, "harness")
+    if REPO_TAG:
+        # private copy of the harness whose path dependency points at the scratch repository
+        import shutil
+        hdir = os.path.join(BUILD, "harness" + REPO_TAG)
+        os.makedirs(os.path.join(hdir, "src"), exist_ok=True)
+        for f in os.listdir(os.path.join(ROOT, "harness", "src")):
+            shutil.copy(os.path.join(ROOT, "harness", "src", f), os.path.join(hdir, "src", f))
+        os.makedirs(os.path.join(hdir, ".cargo"), exist_ok=True)
+        shutil.copy(os.path.join(ROOT, "harness", ".cargo", "config.toml"), os.path.join(hdir, ".cargo", "config.toml"))
+        toml = open(os.path.join(ROOT, "harness", "Cargo.toml")).read().replace('path = "/repo"', 'path = "%s"' % REPO)
+        open(os.path.join(hdir, "Cargo.toml"), "w").write(toml)
+    with Lock("cargo" + REPO_TAG):
+        rc, out = sh(cmd, cwd=hdir, env=env, timeout=1800)
+    exe = os.path.join(BUILD, "target" + REPO_TAG, profile, "smtverif-harness")
     if rc != 0 or not os.path.exists(exe):
         return None, out[-4000:]
     return exe, ""
@@ -262,7 +299,7 @@ def _run_shard(args):
 def run_cases(exe, engine, cases, tag, timeout=600):
     """returns list of (case, impl, status, model, msg) in order"""
     from concurrent.futures import ThreadPoolExecutor
-    workdir = os.path.join(BUILD, "run", tag)
+    workdir = os.path.join(BUILD, "run" + REPO_TAG, tag)
     os.makedirs(workdir, exist_ok=True)
     n = len(cases)
     if n == 0:
@@ -303,6 +340,8 @@ def match_known(pid, engine, case, impl):
 
 # ------------------------------------------------------------------ evidence / verdict
 def write_evidence(pid, tier, seed, coverage, assumptions, wall, violations):
+    if REPO_TAG:            # runs against a scratch repository never touch the evidence
+        return
     os.makedirs(os.path.join(ROOT, "evidence"), exist_ok=True)
     ev = {"property_id": pid, "tier": tier, "seed": seed, "level": "proof", "coverage": coverage,
           "assumptions": assumptions, "wall_s": round(wall, 2), "violations": violations}
@@ -312,7 +351,7 @@ def write_evidence(pid, tier, seed, coverage, assumptions, wall, violations):
 
 
 def write_replay(pid, seed, n, obj):
-    d = os.path.join(ROOT, "replays")
+    d = os.path.join(ROOT, "replays") if not REPO_TAG else os.path.join(BUILD, "replays" + REPO_TAG)
     os.makedirs(d, exist_ok=True)
     p = os.path.join(d, "%s-%s-%d.json" % (pid, seed, n))
     with open(p, "w") as f:
